@@ -420,6 +420,37 @@ pub fn maybe_bus(rng: &mut Rng, c: &mut Case) {
     }
 }
 
+/// Contents of on-chip I/O register locations that this emulator keeps as plain storage (system
+/// control, interrupt controller, DMA, serial, A/D, ... on the real chip; everything accessible in
+/// the two register blocks except the port DDR/DR registers, the 8-bit timer block and the five
+/// bus-controller registers the cost function reads): a configuration dimension - no instruction,
+/// exception entry or interrupt decision may depend on them.
+pub fn io_noise(rng: &mut Rng) -> Vec<(u32, u8)> {
+    let n = 1 + rng.below(3);
+    (0..n)
+        .map(|_| {
+            let a = loop {
+                let a = if rng.chance(1, 2) { 0xfee000 + rng.below(0x100) as u32 } else { 0xffff20 + rng.below(0xca) as u32 };
+                if !crate::refmodel::mem::is_special_io(a) && !(0xfee020..=0xfee026).contains(&a) {
+                    break a;
+                }
+            };
+            let v = match rng.below(4) {
+                0 => 0xff,
+                1 => 1u8 << rng.below(8),
+                2 => *rng.pick(&[0x09u8, 0x80, 0x0f, 0xf0, 0x08]),
+                _ => rng.u8(),
+            };
+            (a, v)
+        })
+        .collect()
+}
+pub fn maybe_io(rng: &mut Rng, c: &mut Case) {
+    if rng.chance(1, 6) {
+        c.patches.extend(io_noise(rng));
+    }
+}
+
 #[derive(Clone, Copy, PartialEq, Eq, Debug, Hash)]
 pub enum Region {
     Ram,
@@ -831,6 +862,7 @@ pub fn build_case(pat: &str, rng: &mut Rng, o: &BuildOpts) -> Option<Built> {
         }
     }
     maybe_bus(rng, &mut c);
+    maybe_io(rng, &mut c);
     // bit 0 of PC set (left behind by an earlier jump/return through an odd value): fetch ignores it
     if !is_flow && rng.chance(1, 12) {
         c.pc |= 1;
